@@ -181,6 +181,12 @@ func TestC09Authenticity(t *testing.T) {
 				if bal := acct.General.Balance.ToBigInt(); bal.IsUint64() && bal.Uint64() > sim.W.Spec.MinTransact+5 && rapid.Bool().Draw(t, "ffee") {
 					fee.Amount = quantityOf(uint64(rapid.IntRange(1, 5).Draw(t, "ffeeAmt")))
 				}
+				if rapid.IntRange(0, 5).Draw(t, "fNoFeeField") == 0 {
+					// a hand-made transaction that leaves the fee field out (gas limit zero): it takes effect only where nothing
+					// costs gas, and it is sequenced like any other transaction
+					fee = nil
+					rec.Label("f-without-fee-field")
+				}
 				tx := transaction.NewTransaction(acct.General.Nonce, fee, method, body)
 				blob := cbor.Marshal(tx)
 				goodSig := ed25519.Sign(rawKey(a.Signer), chain.TxDigest(chainCtx, blob))
